@@ -9,5 +9,6 @@ DevCsumBeforePatch == {"Checksum_BeforePatch"}
 DevScratch == {"Scratch_KeptOnError"}
 DevRcvKeeps == {"Receiver_KeepsBody"}
 RcvOps == {"encode", "decode", "refused", "next"}
+RcvOpsF == {"encode", "decode", "refused", "partial"}     \* focus configurations: two messages of one type, depth 6, exhaustive
 RcvOpsP == RcvOps \cup {"partial"}     \* with partial segments: random walks only (depth 5 would be 800,000 behaviours)
 =============================================================================
